@@ -176,6 +176,9 @@ class Registry:
         self.lib_schema: dict[str, dict[str, Ty]] = {}
         self.lib_classes: set[str] = set()
         self.lib_methods: dict[str, object] = {}          # "Class.meth" -> handler(eng, st, recv, pos, kw, node, awaited)
+        self.lib_cms: dict[str, tuple] = {}               # lib class -> (enter(eng, st, cm, is_async, item), exit(eng, outcome, cm, is_async, item))
+        self.func_calls: dict[str, object] = {}           # repo function qual -> handler(eng, st, pos, kw, node) (e.g. CM factories)
+        self.run_exit_stack = None
         self.ext_calls: dict[str, object] = {}            # dotted external function -> handler(eng, st, pos, kw, node)
         self.guarantees: list = []                        # (name, fn(old, new))
         self.invariants: list = []                        # (name, fn(heapview))
